@@ -199,6 +199,23 @@ slab_c (int salt, int sli, int pli)
   round_trip (ph, (size_t) des_phrlens[pli], S, des_setlens[sli] > 13 ? M_BIG : M_DES, (salt % 64) == 0, rp);
 }
 
+/* (e) settings whose result comes close to the 384-byte output field: every salt length 250..400 for the methods
+   that echo an unbounded salt, with each terminator form */
+static void
+slab_e (int which, int len, int term)
+{
+  static const char *const heads[] = { "$md5$", "$md5,rounds=7$", "$sha1$3$", "$7$2/..../....", "$6$rounds=1000$", "$1$" };
+  static const int hm[] = { M_SUNMD5, M_SUNMD5, M_SHA1, M_SCRYPT, M_SHA512, M_MD5 };
+  static const char *const terms[] = { "", "$", "$$" };
+  char S[VH_SETMAX], rp[64];
+  size_t hl = strlen (heads[which]);
+  memcpy (S, heads[which], hl);
+  vh_salt (S + hl, len, A64, len);
+  strcpy (S + hl + (size_t) len, terms[term]);
+  snprintf (rp, sizeof rp, "e:%d:%d:%d", which, len, term);
+  round_trip ("pw", 2, S, hm[which], len % 16 == 0, rp);
+}
+
 int
 main (int argc, char **argv)
 {
@@ -219,6 +236,8 @@ main (int argc, char **argv)
         slab_b (a, b, c);
       else if (sscanf (vh_replay, "c:%d:%d:%d", &a, &b, &c) == 3)
         slab_c (a, b, c);
+      else if (sscanf (vh_replay, "e:%d:%d:%d", &a, &b, &c) == 3)
+        slab_e (a, b, c);
       else if (mode_c06 && !strncmp (vh_replay, "div:", 4))
         shape_diversity (atoi (vh_replay + 4), d1, d2);
       else
@@ -265,6 +284,12 @@ main (int argc, char **argv)
             slab_c (salt, (int) sli, (int) pli);
     }
   vh_stat ("slab_c_done", 1);
+  for (int which = 0; which < 6 && !vh_expired (); which++)
+    for (int len = 250; len <= 400; len++)
+      for (int term = 0; term < 3; term++)
+        if (vh_mine (idx++))
+          slab_e (which, len, term);
+  vh_stat ("slab_e_done", 1);
   if (mode_c06)
     for (int m = 0; m < M_COUNT && !vh_expired (); m++)
       if (vh_mine ((uint64_t) m))
